@@ -27,7 +27,9 @@ Call(nm, args) == [k |-> "call", name |-> nm, args |-> args]
 SrcFam(as) == { LeafA("a"),
                 [k |-> "seq", s |-> <<LeafA("a"), LeafA(WORLD)>>],
                 [k |-> "seq", s |-> <<LeafA("a"), LeafA("b")>>],
-                [k |-> "cap", c |-> Mon(as, 10), s |-> [k |-> "seq", s |-> <<LeafA("a"), LeafA("b")>>]] }
+                [k |-> "cap", c |-> Mon(as, 10), s |-> [k |-> "seq", s |-> <<LeafA("a"), LeafA("b")>>]],
+                \* a bounded overdraft that covers any amount of the family: the balance still decides (it may be negative)
+                [k |-> "seq", s |-> <<LeafA("b"), [k |-> "ovd", e |-> Acc("a"), b |-> Mon(as, 60)]>>] }
               \cup (IF Big THEN { [k |-> "seq", s |-> <<[k |-> "ovd", e |-> Acc("a"), b |-> Mon(as, 50)], LeafA("b")>>],
                                   [k |-> "seq", s |-> <<LeafA("b"), LeafA("a")>>] } ELSE {})
 Amounts == IF Big THEN {5, 45, 60} ELSE {5, 60}
@@ -42,7 +44,8 @@ DeclFam == { <<>>,
            \cup (IF Big THEN { << [type |-> "monetary", name |-> "m", origin |-> Call("balance", <<Acc("a"), Ast(O)>>), val |-> [t |-> "none"]] >> } ELSE {})
 Contents == { [a |-> [USD |-> 100], b |-> [USD |-> 100]],
               [a |-> [USD |-> 100, EUR |-> 7], b |-> [USD |-> 20]],
-              [a |-> [USD |-> 50], b |-> [USD |-> 100, EUR |-> 3]] }
+              [a |-> [USD |-> 50], b |-> [USD |-> 100, EUR |-> 3]],
+              [a |-> [USD |-> -30], b |-> [USD |-> 5]] }
 Seqs == IF Big THEN {<<s>> : s \in Stmts} \cup {<<s, t>> : s \in Stmts, t \in Stmts} \cup {<<s, t, u>> : s \in Stmts, t \in Stmts, u \in Sends}
         ELSE {<<s, t>> : s \in Stmts, t \in Sends} \cup {<<s, v, t>> : s \in Sends, v \in Saves, t \in Sends}
 
